@@ -89,7 +89,7 @@ def _from_file(rows):
     """the BED6 rows written to a file and read back: a lazily parsed table (columns are cut out of the text when asked for)"""
     import bionumpy as bnp
     import tempfile
-    d = os.path.join(core.VERIF, ".work")
+    d = os.environ.get("VERIF_RUN_WORK") or os.path.join(core.VERIF, ".work", "replay")
     os.makedirs(d, exist_ok=True)
     with tempfile.NamedTemporaryFile("w", suffix=".bed", dir=d, delete=False) as f:
         for r in rows:
